@@ -63,3 +63,17 @@ Example tiny_tables_valid :
   | Err _ => False
   end.
 Proof. vm_compute. repeat split; auto. Qed.
+
+From PJ.Proofs Require Import EncGraphs.
+
+(* The GRAPHS physical type (generic GraphStream): graph starts, the triples of each run of equal
+   graph names, graph ends -- accepted by the referee (graphs bracketed, triples only inside a
+   graph) and denoting the input quads in order. *)
+Theorem C03_encoder_valid_graphs :
+  forall (o : soptions) (s s' : stream) (d : sdata) (evs : list tev),
+    stream_new GraphStream Generic o = Ok s -> cfg_ok o (st_logical s) ->
+    p_nd (so_params o) = false -> fl_rows (st_flow s) = [] -> forallb wf_quad (d_stmts d) = true ->
+    graphs_stream_frames_generic d s = (s', evs) -> raised evs = None ->
+    run (flat_map f_rows (emitted evs)) = Valid (flat_map event_of_quad (d_stmts d)).
+Proof. exact graphs_stream_valid. Qed.
+Print Assumptions C03_encoder_valid_graphs.
